@@ -258,6 +258,10 @@ def hostile(rng):
 
 
 FIXED_DIRECTIVES = ["{physical_type:>300000000}", "{logical_type:>300000000}", "{0:>300000000}", "%300000000d"]
+# always present too: options rows whose numeric fields are as large as the wire allows
+FIXED_OPTION_EXTREMES = [{"version": (1 << 31) - 1}, {"version": (1 << 62)}, {"logical_type": (1 << 31) - 1}, {"physical_type": (1 << 31) - 1},
+                         {"max_name_table_size": (1 << 32) - 1}, {"max_prefix_table_size": (1 << 63) - 1},
+                         {"max_datatype_table_size": (1 << 32) - 1}]
 
 
 def valid_tail() -> bytes:
@@ -280,6 +284,11 @@ def make_inputs(rng, n: int, first_batch: bool = False) -> list:
             rows = [("options", _opts(stream_name=d, physical_type=0)), ("name", {"id": 0, "value": "urn:x"}),
                     ("triple", {"s": ("iri", 0, 0), "p": ("iri", 0, 1), "o": ("bnode", "b")})]
             cls, name, data = "hostile", "format-directive", wire.enc_stream([{"rows": rows}], True)
+        elif first_batch and k < 2 + len(FIXED_DIRECTIVES) + len(FIXED_OPTION_EXTREMES):
+            ext = FIXED_OPTION_EXTREMES[k - 2 - len(FIXED_DIRECTIVES)]
+            rows = [("options", _opts(**ext)), ("name", {"id": 0, "value": "urn:x"}),
+                    ("triple", {"s": ("iri", 0, 0), "p": ("iri", 0, 1), "o": ("bnode", "b")})]
+            cls, name, data = "hostile", "option-field-extreme", wire.enc_stream([{"rows": rows}], True)
         elif x < .3:
             cls, data, name = "random", random_bytes(rng), "random"
         elif x < .65:
@@ -290,7 +299,7 @@ def make_inputs(rng, n: int, first_batch: bool = False) -> list:
         entries = ["generic:flat"] + rng.sample(ENTRY_NAMES[1:], 2)
         if first_batch and k < 2:
             entries = list(ENTRY_NAMES) if k == 0 else ["generic:flat", "rdflib:grouped"]
-        elif first_batch and k < 2 + len(FIXED_DIRECTIVES):
+        elif first_batch and k < 2 + len(FIXED_DIRECTIVES) + len(FIXED_OPTION_EXTREMES):
             entries = list(ENTRY_NAMES)
         out.append({"i": k, "class": cls, "name": name, "hex": data.hex(), "entries": entries,
                     "source": rng.choice(["file", "file", "bytesio", "bytesio", "bytesio", "raw-nonseekable", "buffered-nonseekable"]),
